@@ -135,7 +135,7 @@ class ZlibStub:
 
             d = zlib.decompressobj(wbits)
             return d.decompress(buf, max_length or 0)
-        b = SymBytes.lift(buf)
+        b = SymBytes.lift(buf).coalesced()
         if len(b.segs) != 1 or b.segs[0].kind != "file":
             raise Unsupported("inflate of non-contiguous input")
         s = b.segs[0]
